@@ -484,7 +484,24 @@ def gen_skeleton(r, deep):
             place(t["name"], ".json" if t["data"] else ".jq", d, r.choice([0, 0, 1]), entry)
     if home_jq_file:
         fid = sb.fid()
-        sb.add(["home", ".jq"], {"k": "jq", "mod": {"imports": make_imports(2, 1) if r.random() < 0.2 else [], "defs": make_defs(r, fid)}})
+        himps = make_imports(2, 2) if r.random() < 0.45 else []
+        for imp in himps:
+            # the auto-included ~/.jq may import with a `search` relative to ITS directory (the home directory): make such imports
+            # resolvable there (and, half of the time, put a decoy where a wrong base directory would look)
+            if r.random() < 0.6:
+                imp["search"] = r.choice([{"b": "rel", "s": ["jqlib"]}, {"b": "rel", "s": [".", "jqlib", "data"]}, {"b": "rel", "s": ["."]}, {"b": "rel", "s": ["..", "home", "hs"]}])
+            if "search" in imp:
+                t = byname[tuple(imp["name"])]
+                if (search_dir(imp, home) or [".."])[0] == "..":
+                    continue
+                f2 = sb.fid()
+                entry = ({"k": "json", "vals": [f2 + ".0"]} if t["data"] else {"k": "jq", "mod": {"imports": [], "defs": make_defs(r, f2)}})
+                place(t["name"], ".json" if t["data"] else ".jq", search_dir(imp, home), r.choice([0, 0, 1]), entry)
+                if r.random() < 0.5:
+                    f3 = sb.fid()
+                    decoy = ({"k": "json", "vals": [f3 + ".0"]} if t["data"] else {"k": "jq", "mod": {"imports": [], "defs": make_defs(r, f3)}})
+                    place(t["name"], ".json" if t["data"] else ".jq", search_dir(imp, home + [".jq"]), 0, decoy)
+        sb.add(["home", ".jq"], {"k": "jq", "mod": {"imports": himps, "defs": make_defs(r, fid)}})
     c["main"] = main
     c["fs"] = list(sb.fs.values())
     # --- the universe of conceivable names
